@@ -11,7 +11,7 @@ static std::string oracle(const Case& c) {
     bool nt = m.saw_crypt_then_use || m.max_live >= 2 || m.saw_reinject || m.saw_failed_ctor;
     ev.eval(); ev.count("ops-executed", seq.size()); for (auto& p : m.cls) ev.count(p.first, p.second);
     if (m.saw_crypt_then_use) ev.count("seq:crypt-then-encode/store"); if (m.max_live >= 2) ev.count("seq:>=2-live-seeds"); if (m.saw_reinject) ev.count("seq:re-injection"); if (m.saw_failed_ctor) ev.count("seq:failed-constructor"); if (m.saw_alloc_fail) ev.count("seq:allocation-failure-observed");
-    if (nt) { ev.nt(c); ev.sample(c.get("gen", "seq"), c); } else ev.count("trivial");
+    if (nt) { ev.nt(c); { Case sc = c; sc.set("described", ops::describe(seq).substr(0, 600)); ev.sample(c.get("gen", "seq"), sc); } } else ev.count("trivial");
     return "";
 }
 
